@@ -48,6 +48,10 @@ Occs(e) ==
     [] e = "gfunc"  -> [offs |-> {9}, follow |-> TRUE]            \* function ent() end
     [] e = "param"  -> [offs |-> {18, 30}, follow |-> FALSE]      \* local function fn(ent) return ent end
     [] e = "forvar" -> [offs |-> {4, 24}, follow |-> FALSE]       \* for ent = 1, 2 do print(ent) end
+    [] e = "attr"   -> [offs |-> {6}, follow |-> TRUE]            \* local ent <const> = 1
+    [] e = "attr2"  -> [offs |-> {18}, follow |-> TRUE]           \* local zq <const>, ent <const> = 1, 2
+    [] e = "local2" -> [offs |-> {10}, follow |-> TRUE]           \* local zq, ent = 1, 2
+    [] e = "forin2" -> [offs |-> {8, 34}, follow |-> FALSE]       \* for zq, ent in pairs({}) do print(ent) end
     [] OTHER        -> [offs |-> {}, follow |-> FALSE]
 
 VARIABLES prefix, ent, eol, line, col
